@@ -1054,7 +1054,12 @@ impl Snapshot {
 }
 
 /// Manifest: tracks valid snapshots and WAL segments
+///
+/// Unknown keys are rejected: the optional fields below silently default to `None`
+/// when their key is absent, so a damaged key name (e.g. `latest_snaPshot`) must be a
+/// parse error rather than a manifest without a snapshot pointer.
 #[derive(Debug, Clone, Serialize, Deserialize)]
+#[serde(deny_unknown_fields)]
 pub struct Manifest {
     pub version: u32,
     pub latest_snapshot: Option<String>,
